@@ -160,3 +160,13 @@ where
     let content: [u8; 16] = kani::any();
     ActorId(TinyVec::Inline(tinyvec::ArrayVec::from_array_len(content, b.len())))
 }
+
+/// Same over-approximation for `ActorId::from(Vec<u8>)` (used by `ActorId::try_from(&str)` after hex decoding).
+#[allow(dead_code)]
+pub(crate) fn stub_actor_from_vec(b: Vec<u8>) -> ActorId {
+    assert!(b.len() <= 16);
+    let content: [u8; 16] = kani::any();
+    let a = ActorId(TinyVec::Inline(tinyvec::ArrayVec::from_array_len(content, b.len())));
+    std::mem::forget(b);
+    a
+}
